@@ -1367,3 +1367,26 @@ package zygo
 //@ C16 ensures strict-value-as-is: old(len(args) == 1 && !typeis(args[0], *SexpLazyArg)) ==> r1 == nil && r0 == old(args[0])
 //@ func (PushLazyArgInstr).Execute
 //@ C16 assert wraps-the-source @before call NewSourceLazyArg[0]: arg0 == env && arg1 == p.expr
+
+// C03: making a closure. The value pushed is a private copy of the function template whose
+// captured scopes are the snapshot taken at this moment and whose parent is the function that
+// is running; binding instructions bind the symbol they carry; the function prologue pushes a
+// new function scope that knows its function.
+//@ func (*SexpFunction).Copy
+//@ C03 pure
+//@ C03 ensures private-copy: fresh(r0) && r0 != sf && r0.name == sf.name && r0.fun == sf.fun && r0.nargs == sf.nargs && r0.varargs == sf.varargs && r0.user == sf.user
+//@ func (CreateClosureInstr).Execute
+//@ ghost snap := ret0 @after call NewClosing[0]
+//@ ghost inv := ret0 @after call Copy[0]
+//@ C03 assert snapshot-of-the-running-interpreter @before call NewClosing[0]: arg1 == env
+//@ C03 assert copies-the-template @before call Copy[0]: arg0 == a.sfun
+//@ C03 assert copy-gets-the-snapshot @before call SetClosing[0]: arg0 == inv && arg1 == snap && fresh(inv) && fresh(snap)
+//@ C03 assert pushes-the-copy @before call PushExpr[0]: arg0 == env.datastack && arg1 == inv
+//@ C03 assert parent-is-the-running-function @before call ShowClosing[0]: arg0 == inv && (env.curfunc != nil ==> inv.parent == env.curfunc)
+//@ func (AddFuncScopeInstr).Execute
+//@ C03 assert new-function-scope @before call Push[0]: arg0 == env.linearstack && typeis(arg1, *Scope) && fresh(arg1.(*Scope)) && arg1.(*Scope).IsFunction && arg1.(*Scope).MyFunction == a.Helper.MyFunction
+//@ func (PopStackPutEnvInstr).Execute
+//@ C03 assert binds-its-symbol @before call LexicalBindSymbol[0]: arg0 == env && arg1 == p.sym
+//@ func (UpdateInstr).Execute
+//@ C03 assert sets-its-symbol @before call LexicalLookupSymbol[0]: arg0 == env && arg1 == p.sym && arg2 != nil
+//@ C03 assert else-defines-its-symbol @before call LexicalBindSymbol[0]: arg0 == env && arg1 == p.sym
